@@ -4,7 +4,9 @@
 Each case in selftest/cases/*.py is a dict:
   id, prop, file (relative to repo), edits: [(old, new), ...] (each `old` must
   occur exactly once), expect: 'violation' | 'silent', and optionally `names`
-  (substring that must appear in the violation report).
+  (substring that must appear in the violation report).  The independently
+  seeded changes under seeded/<id>/ (patch.diff + meta.json "detected_by") are
+  added as breaking cases too.
 'violation' cases are breaking edits (still valid Python); 'silent' cases are
 behaviour-preserving twins.  Scratch copies live under a mkdtemp directory and
 are removed afterwards.
@@ -36,6 +38,16 @@ def load_cases():
     m = importlib.util.module_from_spec(spec)
     spec.loader.exec_module(m)
     cases += m.CASES
+  # the independently seeded changes kept under seeded/ are regression cases:
+  # one per property listed in meta.json "detected_by"
+  for mp in sorted(glob.glob(os.path.join(VERIF, 'seeded', '*', 'meta.json'))):
+    with open(mp) as f:
+      meta = json.load(f)
+    sid = os.path.basename(os.path.dirname(mp))
+    for prop in meta.get('detected_by', []):
+      cases.append(dict(id=f'seeded-{sid}-{prop}', prop=prop, expect='violation',
+                        patch=os.path.join(os.path.dirname(mp), 'patch.diff'),
+                        edits=[]))
   ids = [c['id'] for c in cases]
   dup = {i for i in ids if ids.count(i) > 1}
   if dup:
@@ -53,6 +65,11 @@ def run_case(case, keep=False):
   tmp = tempfile.mkdtemp(prefix='fdlstatic-selftest-')
   try:
     make_copy(tmp)
+    if case.get('patch'):
+      r = subprocess.run(['git', 'apply', case['patch']], cwd=tmp,
+                         capture_output=True, text=True)
+      if r.returncode != 0:
+        return case, 'BROKEN-CASE', f'patch does not apply: {r.stderr[-300:]}'
     for file, old, new in _edits(case):
       path = os.path.join(tmp, file)
       with open(path) as f:
